@@ -77,6 +77,7 @@ UNITS = {
     "C16": [
         {"name": "C16_INP", "test": "TestC16_INP", "quick": 4000, "thorough": 120000, "shards": 12},
         {"name": "C16_BIN", "test": "TestC16_BIN", "quick": 60, "thorough": 1600, "shards": 4, "bin": True},
+        {"name": "C16_STALL", "test": "TestC16_STALL", "quick": 24, "thorough": 400, "shards": 8},
     ],
     "C18": [
         {"name": "C18_START", "test": "TestC18_START", "quick": 400, "thorough": 30000, "shards": 8, "bin": True},
